@@ -431,6 +431,11 @@ func (ex *Exec) appendOp(st *State, s SliceV, src Value, elem types.Type) Value 
 	sLen, sCap := s.Len, s.Cap
 	if s.Obj == 0 {
 		sLen, sCap = ex.i64(0), ex.i64(0)
+		// appending nothing to a nil slice yields the nil slice (no growth is needed): with a symbolic
+		// number of appended elements that case is split off, it is observable through == nil
+		if !addLen.IsConst() && st.decide(c.Eq(addLen, ex.i64(0))) {
+			return s
+		}
 	}
 	newLen := c.Add(sLen, addLen)
 	fits := c.Sle(newLen, sCap)
